@@ -61,6 +61,12 @@ def bfs_histories(chk, init_model, actions, run_layer, judge, max_depth, label="
             if tr is None or len(tr) != len(hist) + 1:
                 raise HarnessError("%s: bad trace for history %r: %r" % (label, hist + [a], tr))
             if list(tr[:-1]) != list(trace):
+                # The same prefix gave two different observations. On a tree that already violates the
+                # property this is one more symptom (stale wakeups depend on what ran before); on a clean
+                # tree it is a harness problem and must not be reported as a finding.
+                if chk.violations > 0 and on_violation:
+                    on_violation(hist + [a], Mismatch("nondeterministic-replay", "replaying the prefix gave %r, recorded %r" % (tr[:-1], trace)), tr)
+                    continue
                 raise HarnessError("%s: replay divergence on prefix of %r:\n recorded %r\n replayed %r" % (
                     label, hist + [a], trace, tr[:-1]))
             try:
